@@ -16,27 +16,37 @@ def run(tier, seed):
     C = lambda cm, df, D: bc.consts("sock", {"write", "enable", "disable", "loop", "script", "connect", "free", "clr", "shut"}, D,
                                     sizes=(1, 2), durs=(0,), drains=(0, 99), defer=df, wms=((0, 0),), conn=cm,
                                     extras=("none", "free", "w1", "clr"), xkinds=("r", "w", "e"))
+    df = seed % 2 == 0
+    known = dict(name="C19_known_conn", key="sock-cb-before-connected", take=6,
+                 consts=bc.consts("sock", {"write", "enable", "loop", "connect"}, 5, sizes=(1,), durs=(0,), drains=(0,),
+                                  wms=((0, 0),), conn="ok", allow=("sock_cb_before_connected",)))
+    PF = lambda D: bc.consts("pair", LIFE | {"flush", "finish"}, D, sizes=(1, 2), drains=(0, 1, 99), wms=((0, 0),), durs=(0,),
+                             extras=EX, xkinds=("r", "w", "e"), script_until=3)
+    FF = lambda D: bc.consts("filt", LIFE, D, sizes=(1, 2), drains=(0, 99), wms=((0, 0),), durs=(0,),
+                             extras=("none", "free", "freep", "clr"), xkinds=("r", "w"), script_until=3)
+    SF = lambda D: bc.consts("sock", LIFE | {"shut"}, D, sizes=(1, 2), drains=(0, 99), wms=((0, 0),), durs=(0,),
+                             extras=("none", "free", "clr", "w1"), xkinds=("r", "w", "e"), script_until=3)
+    quick_gen = [
+        # every 5-step history of connect / enable / write / loop on a connecting socket (immediate callbacks): the bounded
+        # model check of the quick tier; the histories that meet the known finding's trigger are its canonical scenarios
+        dict(name="C19_conn_exh", consts=known["consts"], known_keys={8: "sock-cb-before-connected"}, take=6, invariants=inv),
+        dict(name="C19_conn_refused_" + ("def" if df else "imm"), consts=C("refused", df, 6), simulate=12),
+        dict(name="C19_pair_free", consts=PF(9), simulate=40),
+        dict(name="C19_sock_free", consts=SF(9), simulate=20) if seed % 2 else dict(name="C19_filt_free", consts=FF(9), simulate=20),
+    ]
     plan = {
-        "mc": [("C19_mc_pair", bc.consts("pair", LIFE | {"flush", "finish"}, 4 if q else 5, sizes=(1,), drains=(0, 99), wms=((0, 0),),
-                                         durs=(0,), extras=("none", "free", "freep"), xkinds=("r", "e"), script_until=2), inv)],
-        "gen": [
-            dict(name="C19_conn_ok_imm", consts=C("ok", False, 8 if q else 11), simulate=20 if q else 200),
-            dict(name="C19_conn_ok_def", consts=C("ok", True, 8 if q else 11), simulate=20 if q else 200),
-            dict(name="C19_conn_refused_imm", consts=C("refused", False, 6 if q else 8), simulate=10 if q else 100),
-            dict(name="C19_conn_refused_def", consts=C("refused", True, 6 if q else 8), simulate=10 if q else 100),
-            dict(name="C19_pair_free", consts=bc.consts("pair", LIFE | {"flush", "finish"}, 9 if q else 12, sizes=(1, 2), drains=(0, 1, 99),
-                                                        wms=((0, 0),), durs=(0,), extras=EX, xkinds=("r", "w", "e"), script_until=3),
-                 simulate=30 if q else 400),
-            dict(name="C19_filt_free", consts=bc.consts("filt", LIFE, 9 if q else 12, sizes=(1, 2), drains=(0, 99), wms=((0, 0),),
-                                                        durs=(0,), extras=("none", "free", "freep", "clr"), xkinds=("r", "w"), script_until=3),
-                 simulate=15 if q else 200),
-            dict(name="C19_sock_free", consts=bc.consts("sock", LIFE | {"shut"}, 9 if q else 12, sizes=(1, 2), drains=(0, 99), wms=((0, 0),),
-                                                        durs=(0,), extras=("none", "free", "clr", "w1"), xkinds=("r", "w", "e"), script_until=3),
-                 simulate=20 if q else 300),
+        "mc": [] if q else [("C19_mc_pair", bc.consts("pair", LIFE | {"flush", "finish"}, 5, sizes=(1,), drains=(0, 99), wms=((0, 0),),
+                                                      durs=(0,), extras=("none", "free", "freep"), xkinds=("r", "e"), script_until=2), inv)],
+        "gen": quick_gen if q else [
+            dict(name="C19_conn_ok_imm", consts=C("ok", False, 11), simulate=200),
+            dict(name="C19_conn_ok_def", consts=C("ok", True, 11), simulate=200),
+            dict(name="C19_conn_refused_imm", consts=C("refused", False, 8), simulate=100),
+            dict(name="C19_conn_refused_def", consts=C("refused", True, 8), simulate=100),
+            dict(name="C19_pair_free", consts=PF(12), simulate=400),
+            dict(name="C19_filt_free", consts=FF(12), simulate=200),
+            dict(name="C19_sock_free", consts=SF(12), simulate=300),
         ],
-        "known": [dict(name="C19_known_conn", key="sock-cb-before-connected", take=6,
-                       consts=bc.consts("sock", {"write", "enable", "loop", "connect"}, 5, sizes=(1,), durs=(0,), drains=(0,),
-                                        wms=((0, 0),), conn="ok", allow=("sock_cb_before_connected",)))],
+        "known": [] if q else [known],
         "monitor_by_kind": {k: bc.mon_c19(k) for k in ("pair", "filt", "sock")},
         "need": ["connect", "free", "clr", "cb:e:f128", "cb:e:f32", "cb:e:f17", "cb:r", "cb:w"],
         "rule": "TLC simulates histories of the Bev specification: bufferevent_socket_connect to a listening / refusing "
